@@ -53,8 +53,8 @@ pub fn until_next_unindented(input: &str, at_least_until: usize, fallback_len: u
         prev_was_newline = ch == '\n';
     }
 
-    // No match found, use fallback
-    let mut fallback_len = input.len().min(fallback_len);
+    // No match found, use fallback, which must not end before the position to be shown
+    let mut fallback_len = input.len().min(fallback_len.max(at_least_until));
     while !input.is_char_boundary(fallback_len) {
         fallback_len -= 1;
     }
